@@ -10,4 +10,7 @@ open Strengths.Gen.PyNumeric
 limited number of digits (the model computes its values exactly and its texts through `repr`) -/
 theorem rdspace_full_precision : fullPrecision inv_rdspace = true := by decide +kernel
 
+/-- `rdspace.py` takes no maximum / minimum / absolute value and swallows no exception: nothing it computes is clamped -/
+theorem rdspace_no_clamping : clamp_rdspace = [] := by decide +kernel
+
 end Strengths.PyNumeric
